@@ -1,7 +1,9 @@
 SPECIFICATION JSpec
 CONSTANT MaxReg = 3
 CONSTANT MaxUnreg = 1
-CONSTANT MaxLen = 4
+CONSTANT MaxLen = 6
+CONSTANT MaxGen = 0
+CONSTANT Narrow = FALSE
 CONSTANT Rich = TRUE
 INVARIANT Report
 CHECK_DEADLOCK FALSE
